@@ -104,6 +104,27 @@ CHECKS["C16"] = dict(
          "permanent. async_pass is covered by the separate pass harness when registered.",
     note=MT_NOTE)
 
+CHECKS["C08"] = dict(
+    level="exploration", design="5 C08",
+    technique="runtime monitoring under stress: per-leaf admission/start/completion sequence numbers vs join start/completion "
+              "(join never before nested work, nothing started after close, every join completes once, stop reaches running "
+              "work), heap-allocated scope destroyed by the last joiner under ASan, TSan on the same workload, delay injection at the opState_ sites",
+    text="Workers spawn/nest/attach/discard manual leaves into a v0, v1 or v2 scope while completer threads finish them, a "
+         "stopper calls request_stop and 1-2 joiners start join/complete/cleanup at random times. Offline rules over the "
+         "recorded sequence numbers decide the property; the scope is freed as soon as its joins completed so that a "
+         "completion path that still touches it is a heap-use-after-free.",
+    note=MT_NOTE)
+CHECKS["C09"] = dict(
+    level="exploration", design="5 C09",
+    technique="runtime monitoring under stress: futures awaited / cancelled / dropped while the spawned leaf completes on "
+              "another thread; payload identity, legitimacy of done, dropped-future-requests-stop rule, tracked-result "
+              "construction/destruction balance, ASan (shared heap state) and TSan, delay injection at the five CAS sites",
+    text="A third of the admissions in the scope stress are spawn_future/scope.spawn; each future is awaited (with a stop "
+         "request before or shortly after start in a quarter of the cases) or dropped, racing with the completer threads "
+         "and with scope-wide stop/close. Value/error ids must match the leaf's; done is accepted only for the listed "
+         "reasons; a result available before the future was started must survive a stop request; results are tracked.",
+    note=MT_NOTE + " spawn_detached's terminate-on-error is not driven.")
+
 NOT_YET = "check not built yet (construction in progress, see DESIGN.md section 10)"
 
 
